@@ -74,7 +74,8 @@ def run(ck):
     def resolved(br):
         """Resolved expressions (effects, loop bodies, returned values, final bindings) of a dispatch branch, as (text, ast) pairs."""
         out = []
-        for p_ in paths(br.body, helpers=helpers):
+        from sa.prenorm import inline_generators
+        for p_ in paths(inline_generators(br.body, helpers), helpers=helpers):
             nodes = list(p_.effects) + ([p_.value] if p_.value is not None else []) + [v for v in p_.env.values() if isinstance(v, ast.AST)]
             for n_ in nodes:
                 out.append((norm(n_).replace("m2_expr.", ""), n_))
@@ -114,9 +115,14 @@ def run(ck):
                 ok = ("%s.%s" % (ep, ch)) in called
             ck.ob("R1", "%s:child:%s" % (k, ch), ok, m.where(br), "child `%s` of %s is neither enumerated nor put in a constraint" % (ch, k))
         if k == "ExprSlice":
-            ck.ob("R1", "ExprSlice:rebuild", "consval.value[%s.start:%s.stop]" % (ep, ep) in txt, m.where(br), "slice alternatives must keep [start:stop]")
+            ok = any(isinstance(x, ast.Subscript) and isinstance(x.slice, ast.Slice) and x.slice.step is None and x.slice.lower is not None and x.slice.upper is not None
+                     and norm(x.slice.lower) == "%s.start" % ep and norm(x.slice.upper) == "%s.stop" % ep and isinstance(x.value, ast.Attribute) and x.value.attr == "value"
+                     for _t, n_ in nodes for x in ast.walk(n_))
+            ck.ob("R1", "ExprSlice:rebuild", ok, m.where(br), "slice alternatives must keep [start:stop]")
         if k == "ExprMem":
-            ck.ob("R1", "ExprMem:rebuild", "ExprMem(consval.value, %s.size)" % ep in txt, m.where(br), "memory alternatives must keep the access size")
+            ok = any(isinstance(c, ast.Call) and callee_attr(c) == "ExprMem" and len(c.args) == 2 and isinstance(c.args[0], ast.Attribute) and c.args[0].attr == "value"
+                     and norm(c.args[1]) == "%s.size" % ep for _t, n_ in nodes for c in ast.walk(n_))
+            ck.ob("R1", "ExprMem:rebuild", ok, m.where(br), "memory alternatives must keep the access size")
         if k == "ExprOp":
             ok = any(isinstance(c, ast.Call) and callee_attr(c) == "ExprOp" and c.args and norm(c.args[0]) == "%s.op" % ep and len(c.args) == 2 and isinstance(c.args[1], ast.Starred)
                      for _t, n_ in nodes for c in ast.walk(n_))
@@ -161,8 +167,16 @@ def run(ck):
         nodes = res.get(k, [])
         loops = [n_ for _t, n_ in nodes if isinstance(n_, ast.Call) and norm(n_.func) == "__loop__"]
         prod = [l for l in loops if isinstance(l.args[1], ast.Call) and norm(l.args[1].func) in ("itertools.product", "product") and l.args[1].args and isinstance(l.args[1].args[0], ast.Starred)]
-        ck.ob("R3", "%s:product" % k, bool(prod), m.where(br), "%s alternatives are not the Cartesian product of the arguments' alternatives" % k)
         tgt = norm(prod[0].args[0]) if prod else "?"
+        if not prod:
+            for _t, n_ in nodes:
+                for x in ast.walk(n_):
+                    if isinstance(x, (ast.GeneratorExp, ast.ListComp, ast.SetComp)) and len(x.generators) == 1 and not x.generators[0].ifs:
+                        it_ = x.generators[0].iter
+                        if isinstance(it_, ast.Call) and norm(it_.func) in ("itertools.product", "product") and len(it_.args) == 1 and isinstance(it_.args[0], ast.Starred):
+                            prod.append(x)
+                            tgt = norm(x.generators[0].target)
+        ck.ob("R3", "%s:product" % k, bool(prod), m.where(br), "%s alternatives are not the Cartesian product of the arguments' alternatives" % k)
         ok = False
         for _t, n_ in nodes:
             for c in ast.walk(n_):
